@@ -314,7 +314,7 @@ func keyKind(ch *chain, ci *callInfo) string {
 	return ch.pool[ci.Built.SignKey].Kind
 }
 
-var c03Mutations = []string{"chainid", "amount", "msgfield", "msgfield", "fee", "feedown", "memo", "entropy", "sigflip", "sigtrunc", "sigext", "swapkey"}
+var c03Mutations = []string{"chainid", "amount", "msgfield", "msgfield", "fee", "feedown", "memo", "entropy", "sigflip", "sigtrunc", "sigext", "swapkey", "sigpartial", "sigpartial", "sigshift"}
 
 func genC03(t *rapid.T, tier string) interface{} {
 	pr := &histProfile{OwnerBias: 2, MaxBlocks: 6, MinBlocksOf: []int{1, 3}, MaxTxs: 10, Evidence: 0, Missed: 0, Restart: 0,
@@ -400,7 +400,7 @@ func init() {
 	register(&PropDef{ID: "C03",
 		Rule: "funded chains of 1-6 blocks with up to 10 transactions each, of every bundled message type, signed by ed25519 / secp256k1 / (nested) multisig keys, key carried in the signature or looked up " +
 			"from the signer's stored account (some accounts have no stored key), 1 in 4 signed by a key other than the declared signer, 1 in 3 with one post-signing mutation (chain id, message amount, fee up/down, " +
-			"memo, entropy, signature bit flip / truncation / extension, swapped key), fees below/at/above the requirement, 1 in 5 also naming a second denomination that half of the accounts own, fee-multiplier parameters, replays of committed transactions; each is submitted " +
+			"memo, entropy, signature bit flip / truncation / extension, swapped key, a multi-signature with only its first or last m<n genuine signatures), fees below/at/above the requirement, 1 in 5 also naming a second denomination that half of the accounts own, fee-multiplier parameters, replays of committed transactions; each is submitted " +
 			"through CheckTx or DeliverTx and the outcome is compared with a decision model written from the statement (accept iff ... key address == declared signer, signature verifies over the delivered " +
 			"content, fee >= required, not in the tx index, signer can pay); rejected => state byte-identical, accepted => fee collector +fee. Non-trivial = forged/mutated/replayed submissions outnumber " +
 			"pristine ones in the history; distinctness = hash of the program",
